@@ -112,7 +112,7 @@ type c09TmplOpt struct {
 	Mixin, Collector, Views, Nested, Names bool
 	Deep                                   bool // deeply nested statements, expressions and inline types
 	Long                                   bool // very long string values (one JSON line of tens to hundreds of KB)
-	MinChain                               int // minimal mixin chain depth (0 = 1)
+	MinChain                               int  // minimal mixin chain depth (0 = 1)
 	// avoid the shapes of known findings (decided by the caller through knownActive)
 	NoCollectorArr, NoMixinDisorder, NoQuoteColonName bool
 }
